@@ -284,6 +284,8 @@ def gen_op(rng, prop, world, idx, mask, nres_ops):
     if sk in ("maxit", "both"):
         stop = stop or {}
         stop["maxit"] = max(0, n + (rng.choice([-1, 0, 0, 1, 2]) if sk == "both" else 0))
+        if rng.random() < 0.06:
+            stop["maxit"] = stop["maxit"] + 0.5  # "ntot/2"-style float iteration limits
     if sk == "degenerate":
         stop = wchoice(rng, [({"maxit": 0}, 40), ({"tottime": {"k": "start"}}, 30),
                              ({"tottime": {"k": "start_minus", "eps": fhex(1.0)}}, 30)])
@@ -298,6 +300,19 @@ def gen_op(rng, prop, world, idx, mask, nres_ops):
         op["mon"] = gen_monspec(rng, mkind, 2)
         op["mon_id"] = rng.randrange(0, 3) if rng.random() < 0.4 else 100 + idx
     op["dir"] = {"dtlocal": True} if ("dtlocal" in mask and rng.random() < 0.25) else {}
+    if world["mode"] == "stub" and cls in EXPLICIT and rng.random() < 0.0012:
+        # marathon: one call of more than ten thousand iterations (cheap in the stub world),
+        # against silent iteration caps and counters that only go wrong far from zero
+        n = 10200 + rng.randrange(2500)
+        op["horizon"] = n
+        op["budget"] = n + 300
+        op["stop"] = rng.choice([None, {"tottime": {"k": "boundary", "i": n, "ulps": 0}}, {"maxit": n}])
+        op["stop_kind"] = "marathon"
+        op.pop("stop_share", None)
+        op["tsave"] = [{"k": "inside", "i": rng.randrange(n), "th": fhex(0.5)}, {"k": "boundary", "i": n, "ulps": 0}]
+        op.pop("mon", None)
+        op.pop("mon_id", None)
+        op.pop("flush", None)
     if rng.random() < 0.05:
         op["dir"]["verbose"] = True
     # (np.save of the flush history is ragged for vector-valued 2D fields and raises: an
